@@ -39,6 +39,8 @@ C10Port      == NetValue(cur) => DefaultPortOmitted(cur.url)
 C10Segments  == NetValue(cur) => NoDotOrEmptySegments(cur.url)
 C10Escapes   == NetValue(cur) => EscapesUpper(cur.url)
 C10Idempotent == NetValue(cur) => (cur.oc2 = "value" /\ cur.url2 = cur.url)
+\* ... also when the second pass does not know the encoding of the document the URL came from
+C10IdempotentAnyEnc == NetValue(cur) => (cur.oc3 = "value" /\ cur.url3 = cur.url)
 C10RoundTrip == NetValue(cur) => /\ cur.oc2 = "value"
                                  /\ cur.sch2 = cur.sch /\ cur.hn2 = cur.hn /\ cur.port2 = cur.port
                                  /\ cur.path2 = cur.path /\ cur.query2 = cur.query
@@ -58,7 +60,7 @@ BadMask ==
   IF cur.ref THEN 0
   ELSE IF Prop = "C10"
   THEN B(C10IsAscii, 1) + B(C10NoWsC0, 2) + B(C10Lower, 4) + B(C10Port, 8) + B(C10Segments, 16) + B(C10Escapes, 32)
-       + B(C10Idempotent, 64) + B(C10RoundTrip, 128) + B(C10Variants, 256)
+       + B(C10Idempotent, 64) + B(C10RoundTrip, 128) + B(C10Variants, 256) + B(C10IdempotentAnyEnc, 512)
   ELSE B(C11Parse, 1) + B(C11Accessors, 2) + B(C11Log, 4) + B(C11Join, 8) + B(C11Terminates, 16)
 
 ASSUME \A i \in 1..(2 * NT) : TLCSet(i, 0)
